@@ -6,6 +6,7 @@ import (
 	"math/big"
 	"regexp"
 	"sort"
+	"strconv"
 	"strings"
 	"time"
 
@@ -400,7 +401,14 @@ func c16Run(e *core.Env) {
 				sc = s
 			}
 		}
-		drv.Files(sc.Files)
+		// (the binary runs use 36 000 bookings, the race detector the 5000 of the scenario)
+		const nBig = 36000
+		var big strings.Builder
+		for i := 0; i < nBig; i++ {
+			fmt.Fprintf(&big, "2020-%02d-%02d \"t%05d\"\nAssets:Bank Expenses:Food %d.%02d USD\n\n", 1+(i/3000)%12, 1+i%28, i, 1+i, i%100)
+		}
+		drv.Files(map[string]string{"root.knut": "2019-12-31 open Assets:Bank\n2019-12-31 open Expenses:Food\n2019-12-31 open Equity:Opening\n2019-12-31 price USD 0.9 CHF\ninclude \"big.knut\"\n", "big.knut": big.String()})
+		reDesc := regexp.MustCompile(`"t(\d{5})"`)
 		for _, procs := range []string{"1", "", "4", ""} {
 			o := drv.RunBinaryProcs(procs, sc.Args...)
 			e.Count("evaluations")
@@ -409,10 +417,17 @@ func c16Run(e *core.Env) {
 				e.Violation("C16:unexpected-failure:large-file", clip(o.Stderr, 1000), c16Case{}, nil)
 				break
 			}
+			seen := make([]int, nBig)
+			for _, m := range reDesc.FindAllStringSubmatch(o.Stdout, -1) {
+				if k, _ := strconv.Atoi(m[1]); k < nBig {
+					seen[k]++
+				}
+			}
 			bad := ""
-			for i := 0; i < 5000 && bad == ""; i++ {
-				if n := strings.Count(o.Stdout, fmt.Sprintf("\"t%05d\"", i)); n != 1 {
+			for i, n := range seen {
+				if n != 1 {
 					bad = fmt.Sprintf("booking t%05d appears %d times in the output (GOMAXPROCS=%q)", i, n, procs)
+					break
 				}
 			}
 			if bad != "" {
@@ -420,11 +435,26 @@ func c16Run(e *core.Env) {
 				break
 			}
 		}
+		drv.Files(sc.Files)
 		raceTier(e, core.Pick(e, 2, 6), "C16", "big-file")
+	}
+	if e.Take() {
+		// bookings in a file that two other files include: once in the ledger under every loader schedule
+		opens := "2019-12-31 open Assets:Bank\n2019-12-31 open Expenses:Food\n2019-12-31 price USD 0.9 CHF\n"
+		files := map[string]string{
+			"root.knut":     opens + "include \"y2020.knut\"\ninclude \"y2021.knut\"\n",
+			"y2020.knut":    "include \"standing.knut\"\n2020-03-01 \"in 2020\"\nAssets:Bank Expenses:Food 1 USD\n\n",
+			"y2021.knut":    "include \"standing.knut\"\n2021-03-01 \"in 2021\"\nAssets:Bank Expenses:Food 2 USD\n\n",
+			"standing.knut": "2020-06-01 \"standing order\"\nAssets:Bank Expenses:Food 3 USD\n\n",
+		}
+		diamondSchedules(e, drv, "C16", "transcode", files, []string{"transcode", "-v", "CHF", "root.knut"}, []string{`"standing order"`, `"in 2020"`, `"in 2021"`}, 1)
 	}
 }
 
 func c16Replay(e *core.Env, data json.RawMessage) (bool, string) {
+	if h, v, d := replayMultiFile(e, data); h {
+		return v, d
+	}
 	var cs c16Case
 	if err := json.Unmarshal(data, &cs); err != nil {
 		return false, err.Error()
